@@ -24,8 +24,10 @@ def h64(*parts):
     for p in parts:
         if isinstance(p, str):
             p = p.encode()
+        elif isinstance(p, bool) or p is None or isinstance(p, (tuple, list, float, frozenset, set, dict)):
+            p = repr(p).encode()
         elif isinstance(p, int):
-            p = p.to_bytes(8, "little", signed=True)
+            p = p.to_bytes(16, "little", signed=True)
         h.update(p)
         h.update(b"|")
     return int.from_bytes(h.digest(), "little")
